@@ -113,6 +113,38 @@ def run(ctx):
             ctx.case(("unknown-mode", repr(mode)[:30], a, b, c, d))
             if not (o[0] == "err" and o[1] in ("ValueError", "TypeError")):
                 ctx.violation(mode=repr(mode)[:60], args=[a, b, c, d], observed=show(o)[:200], required="ValueError/TypeError (unknown mode)")
+    # the verdict depends on the kinds of the members only, never on their values: the same matrix with other
+    # representatives - bintime instants outside the years 1..9999 (valid 128-bit timestamps whose text form does not
+    # exist), extreme timedeltas, objects that cannot be printed, long sequences
+    import nitypes.bintime as bt
+    import hightime as ht
+
+    class Hostile:
+        def __repr__(self): raise OverflowError("no text form")
+        __str__ = __repr__
+    far = bt.DateTime.from_ticks(((1 << 63) - 1) << 64)
+    far2 = bt.DateTime.from_ticks(-(1 << 127))
+    V2 = dict(V)
+    V2.update({"Db": far, "Tb": bt.TimeDelta.from_ticks((1 << 127) - 1), "Td": dt.timedelta.max, "Th": ht.timedelta.min,
+               "Dd": dt.datetime.max.replace(tzinfo=dt.timezone.utc), "Dh": ht.datetime.min.replace(tzinfo=dt.timezone.utc),
+               "Sm": [far2, far2, far], "Sd": (far, far2), "Sn": [far2, far, far2], "Sb": [far, "x"], "O": Hostile(),
+               "Se": ()})
+    cells = list(itertools.product(modes.items(), itertools.product(KINDS, repeat=4)))
+    if ctx.quick:
+        cells = ctx.rng.sample(cells, 12000)
+    for (mname, mode), (a, b, c, d) in cells:
+        o = outcome(Timing, mode, V2[a], V2[b], V2[c], V2[d])
+        ok = allowed(mname, a, b, c, d)
+        if ok != (o[0] == "ok") or (o[0] == "err" and o[1] not in ("TypeError", "ValueError")):
+            ctx.violation(mode=mname, args=[a, b, c, d], values="extreme representatives (far bintime instants, unprintable objects)",
+                          observed=show(o)[:200], required="accepted" if ok else "ValueError/TypeError")
+        elif o[0] == "ok":
+            t = o[1]
+            flags = (t.has_timestamp, t.has_start_time, t.has_time_offset, t.has_sample_interval)
+            if flags != (a != "A", a != "A", b != "A", c != "A"):
+                ctx.violation(mode=mname, args=[a, b, c, d], values="extreme representatives", observed=str(flags), required="has_* = given members")
+        ctx.case(("extreme", mname, a, b, c, d), nontrivial=(a, b, c, d) != ("A", "A", "A", "A"))
+        ctx.count("extreme-outcome", "ok" if o[0] == "ok" else o[1])
     res = ctx.model([q for q, _ in reqs])
     if res is not None:
         for (q, want), got in zip(reqs, res):
